@@ -32,6 +32,16 @@ Inductive case :=
    (* ONE cipher instance sealed n times (one value, or 2-3 values in turn): number of distinct strings,
       number of distinct (value, nonce) pairs read off the decoded strings, smallest distance between two
       equal strings, whether every string opened to its value *)
+| CRound (kind json_len sealed_len um st st2 : N)
+   (* a value whose json.Marshal is json_len bytes long (the sealed string, sealed_len characters, is not
+      shown to Coq): um = Marshal then Unmarshal (1 = nil error and equal value, 0 = error, 2 = another value);
+      st / st2 = SaveSession then LoadSession of the Set-Cookie value on the sessions.NewCookieStore store /
+      on the store proxy.SetCookieStore builds (0 = not run, 1 = equal session, 2 = error or another value) *)
+| CReopen (kind first again conc_bad : N)
+   (* open - mutate every field of the returned struct in place - open the SAME string again:
+      first / again = the two observations (LoadSession codes as in CSeal; for Unmarshal 11 = equal to the
+      sealed value #1, 1 = error, 10 = another value); conc_bad = number of loads, among those made by two
+      goroutines that load the same string and mutate what they get, that did not equal the sealed value *)
 | CEnc (b : str) (obs_enc : str) (obs_dec : option str)   (* Go: EncodeToString b, DecodeString of that *)
 | CDec (strict nocrlf : bool) (s : str) (obs : option str).
    (* Go: RawURLEncoding[.Strict()].DecodeString s, preceded by the CR/LF rejection when nocrlf *)
@@ -138,11 +148,24 @@ Definition judge_fresh (n dstrings dpairs : N) (mindist : option N) (all_rt : bo
   code (negb (dstrings =? dpairs) || negb all_rt)
        ((dstrings =? n) && (match mindist with None => true | Some _ => false end) && all_rt) 0.
 
+(* big values: the model's round trip (C02_roundtrip, load_session_roundtrip) has no size bound *)
+Definition judge_round (um st st2 : N) : N :=
+  let ok := (um =? 1) && ((st =? 0) || (st =? 1)) && ((st2 =? 0) || (st2 =? 1)) in
+  code (negb ok) ok 0.
+
+(* open - mutate - reopen: in the model opening is a FUNCTION of key and string (no state), and the string
+   is the genuine seal of value #1: both observations are "value #1", whatever happened in between *)
+Definition judge_reopen (first again conc_bad : N) : N :=
+  let ok := (first =? 11) && (again =? 11) && (conc_bad =? 0) in
+  code (negb ok) ok 0.
+
 Definition judge (c : case) : N :=
   match c with
   | CSeal _ gs pk p obs store => judge_seal repo_mode gs pk p obs store
   | CCookie _ gs pk lines store => judge_cookie repo_mode gs pk (render_lines gs lines) store
   | CFresh _ n ds dp md rt => judge_fresh n ds dp md rt
+  | CRound _ _ _ um st st2 => judge_round um st st2
+  | CReopen _ first again conc_bad => judge_reopen first again conc_bad
   | CEnc b obs_enc obs_dec =>
       code (negb (str_eqb (b64url_encode b) obs_enc)
             || negb (option_eqb str_eqb (go_b64url_decode false obs_enc) obs_dec))
@@ -176,6 +199,8 @@ Definition classify (c : case) : N :=
                                 end
                    end)
   | CFresh kind _ _ _ _ _ => 990 + kind
+  | CRound kind json_len _ _ _ _ => 1000 + kind * 100 + N.log2 (json_len + 1)
+  | CReopen kind _ _ _ => 980 + kind
   | CEnc b _ _ => 900 + N.of_nat (length b) mod 3
   | CDec strict nocrlf s obs =>
       950 + (match obs with Some _ => 1 | None => 0 end) + (if strict then 2 else 0) + (if nocrlf then 4 else 0)
